@@ -164,7 +164,10 @@ class C12(Check):
                 except BaseException as ex:  # noqa: BLE001
                     reraise_control(ex)
                     optimizer_victim = any(k.startswith("engine_quirk:polars_optimizer") for k in out.counters)
-                    if not engine_quirk(ex, run.case2, run.ref) and not optimizer_victim:
+                    if exc_name(ex) == "PanicException":
+                        # a Rust panic inside Polars ("entered unreachable code") is an engine bug whatever the plan (4.15 g)
+                        out.count("engine_quirk:polars_panic")
+                    elif not engine_quirk(ex, run.case2, run.ref) and not optimizer_victim:
                         out.fail("internal-error", f"polars:roundtrip:{exc_name(ex)}", f"round trip raised {exc_name(ex)}: {str(ex)[:200]}")
 
 
